@@ -6,6 +6,7 @@ import (
 	"go/types"
 	"sort"
 	"strings"
+	"verif/checker/core"
 
 	"golang.org/x/tools/go/ssa"
 
@@ -59,9 +60,10 @@ func exprInterp(c *Ctx, w *absint.World, tokens map[string]int64) *absint.Interp
 		}
 		return nil
 	}
+	private := exprPrivateHelpers(c)
 	it.InlinePred = func(f *ssa.Function) bool {
 		n := c.P.FnRef(f)
-		return n == "lib/parser.(Token).IsEmpty" || strings.HasSuffix(n, ").IsNegated")
+		return n == "lib/parser.(Token).IsEmpty" || strings.HasSuffix(n, ").IsNegated") || private[f]
 	}
 	it.FieldInit = func(obj, field string, t types.Type) (absint.Val, bool) {
 		if field == "Token" {
@@ -74,6 +76,28 @@ func exprInterp(c *Ctx, w *absint.World, tokens map[string]int64) *absint.Interp
 		return absint.Val{}, false
 	}
 	return it
+}
+
+// exprPrivateHelpers: the functions that are called only from one of the analysed evaluation functions (or from
+// another such helper): code moved out of evalBetween, evalIn … into a helper of its own is still interpreted.
+var exprPrivateMemo = map[*core.Prog]map[*ssa.Function]bool{}
+
+func exprPrivateHelpers(c *Ctx) map[*ssa.Function]bool {
+	if m, ok := exprPrivateMemo[c.P]; ok {
+		return m
+	}
+	m := map[*ssa.Function]bool{}
+	for _, n := range []string{"evalLogic", "evalUnaryLogic", "evalBetween", "evalIn", "evalAny", "evalAll", "evalIs", "evalComparison"} {
+		if f := c.P.Func("lib/query." + n); f != nil {
+			for h := range privateHelpersOf(c.P, f, 2) {
+				if c.P.InPkg(h, "lib/query") {
+					m[h] = true
+				}
+			}
+		}
+	}
+	exprPrivateMemo[c.P] = m
+	return m
 }
 
 // errorFree: no `x != nil` decision on an error result was answered "non-nil".
